@@ -38,6 +38,8 @@ paths:
   /pets/{id}:
     parameters:
       - {name: id, in: path, required: true, schema: {type: integer, minimum: 1}}
+      - {name: X-Tenant, in: header, schema: {type: string, maxLength: 8}}
+      - {name: fields, in: query, schema: {type: string, pattern: '^[a-z,]*$'}}
     get:
       operationId: getPet
       security: []
@@ -116,6 +118,16 @@ paths:
                 note: {type: string, pattern: 'MARKm'}
       responses:
         '201': {description: created}
+  /csv:
+    post:
+      operationId: csv
+      security: []
+      requestBody:
+        content:
+          text/csv:
+            schema: {type: string, pattern: '^id,name\n([0-9]+,[a-zMARK]+\n){1,3}$'}
+      responses:
+        '204': {description: none}
   /text:
     post:
       operationId: text
